@@ -269,3 +269,29 @@ package admin
 //@   ensures [C15:ok_response_means_the_whole_batch_committed_in_one_call] implements(s.Store, "queue.BatchEnqueuer") && respStatus == 200 ==> batchCommitted == old(batchCommitted) + 1 && batchCalls == old(batchCalls) + 1 && lastBatchLen == len(local(items)) && lastBatchErr == nil
 //@   ensures [C15:always_answers] respStatus != 0
 //@   ensures [C15:item_errors_name_an_item_of_the_batch] respStatus != 200 && publishErrIndex >= 0 && len(local(items)) > 0 ==> publishErrIndex < len(local(items))
+
+// ---- C11: the Admin API acts only for authorized callers ----
+
+//@ fieldfunc admin.Server.Authorize(r) (ok)
+//@   modifies authzCalls, authzResult, authzReq
+//@   ensures authzCalls == old(authzCalls) + 1 && authzResult == ok && authzReq == r
+
+//@ func (*Server).handle*
+//@   trusted
+//@   modifies *
+//@   preserves Server.*
+//@ func writeMethodNotAllowed
+//@   trusted
+//@   modifies respStatus, maps(http.Header)
+//@ func writeManagementError
+//@   requires status >= 100
+//@   modifies respStatus, maps(http.Header)
+//@   ensures [C11:error_status_written] w != nil ==> respStatus == ite(old(respStatus) == 0, status, old(respStatus))
+
+//@ func (*Server).ServeHTTP
+//@   requires s != nil && r != nil && r.URL != nil && r.Header != nil && w != nil && respStatus == 0
+//@   modifies *
+//@   calls (*Server).handle* requires [C11:handlers_run_only_for_an_authorized_request] s.Authorize == nil || (authzCalls == old(authzCalls) + 1 && authzResult && authzReq == r)
+//@   preserves Server.*
+//@   ensures [C11:refused_is_401_and_nothing_else_ran] s.Authorize != nil && authzCalls == old(authzCalls) + 1 && !authzResult ==> respStatus == 401
+//@   ensures [C11:authorizer_consulted_exactly_once_with_the_request] s.Authorize != nil ==> authzCalls == old(authzCalls) + 1 && authzReq == r
